@@ -90,7 +90,9 @@ func c14san(s string) string {
 
 var c14pieces = []string{`"`, `\`, `\"`, `\\`, `\n`, "\n", "\r", "\r\n", "\t", "\x00", "\x01", "\x1f", "\x7f", "\u2028", "\u2029", "<", ">", "&", "</script>", "'", "`",
 	`","ip":"6.6.6.6`, `"}` + "\n" + `{"ip":"6.6.6.6"`, `\u0000`, `\ud800`, "é", "日本語", "😀", "\xff", "\xc0\xaf", "\xed\xa0\x80", "\xf4\x90\x80\x80", "\xe2\x82", "\x80", "\xc3", "\ufffd", "\ufeff",
-	"{", "}", "[", "]", ":", ",", "null", "true", "1e999", " ", "  ", "/", `\/`, "%s", "%d", "%!s(MISSING)", "{{.}}", "$(id)"}
+	"{", "}", "[", "]", ":", ",", "null", "true", "1e999", " ", "  ", "/", `\/`, "%s", "%d", "%!s(MISSING)", "{{.}}", "$(id)",
+	// literal text that looks like an escape sequence the encoder itself emits (a server can send these six characters)
+	`\u0026`, `\u003c`, `\u003e`, `\\u0026`, `u0026`, `\u003C`, `&amp;`, `\u2028`, `\x3c`}
 
 func c14str(rng *rand.Rand, valid bool) string {
 	switch rng.Intn(12) {
